@@ -294,6 +294,8 @@ def main():
             "checker_cmd": f"cd lean && lake build RitiModel.Props.{pid} && lake env lean <#print axioms of every theorem>  (run by ./check {pid})",
             "trusted_base": TRUSTED_BASE,
             "theorems": theorems,
+            "partial_theorems": [t["name"] for t in theorems if "_partial" in t["name"]],
+            "partial_note": "theorems named *_partial are the strongest true restriction of a clause whose full-strength statement is false of the code; each comes with a proved counter-example (witness) in the same file and a known_findings.txt class",
             "evaluations": evaluations, "distinct_nontrivial": nontrivial,
             "rule": "evaluations = inputs/histories run against the real library by the property oracle; distinct_nontrivial = distinct cases (hashed) that exercise a non-default behaviour as defined per stream in harness/src/streams",
             "samples": samples if samples else [{"theorems": [t["name"] for t in theorems][:5]}],
